@@ -9,6 +9,7 @@ import (
 	"net"
 	"os"
 	"strings"
+	"time"
 
 	"github.com/gregoryv/mq"
 
@@ -27,7 +28,7 @@ func init() { register(c06{}) }
 func (c06) ID() string    { return "C06" }
 func (c06) Level() string { return "exploration" }
 func (c06) Rule() string {
-	return "streams = concatenations of 1..16 frames (valid frames of all 15 types encoded by the library and by the reference encoder, frames of remaining length 0, content-malformed frames, type-0 frames) followed by nothing, arbitrary bytes or a partial next frame; read by successive ReadPacket calls through a byte-counting reader over a full-fill reader, bufio readers of 16/4096 bytes (wrapped, and handed over as they are), unwrapped *bytes.Buffer / *bytes.Reader / *strings.Reader, one-byte and random fragmentation with zero-length reads, and real net.Pipe / os.Pipe / loopback TCP connections fed by a fragmenting writer goroutine. Offline checker over the per-call event log: bytes drawn per call = 1 + size of remaining-length field + remaining length (reference header parser), conservation over the stream, k-th result = result of frame k alone, io.EOF after the last frame, trailing bytes untouched. distinct = (type sequence, frame kinds, reader kind, trailer kind); non-trivial = at least two frames or a trailer"
+	return "streams = concatenations of 1..16 frames (valid frames of all 15 types encoded by the library and by the reference encoder, frames of remaining length 0, content-malformed frames, type-0 frames) followed by nothing, arbitrary bytes or a partial next frame; read by successive ReadPacket calls through a byte-counting reader over a full-fill reader, bufio readers of 16/4096 bytes (wrapped, and handed over as they are), unwrapped *bytes.Buffer / *bytes.Reader / *strings.Reader, a connection wrapper whose Len() reports the bytes staged so far, one-byte and random fragmentation with zero-length reads, real net.Pipe / os.Pipe / loopback TCP connections fed by a fragmenting writer goroutine, and lock-step peers (one frame, then silence until it has been read) over net.Pipe / os.Pipe with and without the caller's own bufio.Reader. Offline checker over the per-call event log: bytes drawn per call = 1 + size of remaining-length field + remaining length (reference header parser), conservation over the stream, k-th result = result of frame k alone, io.EOF after the last frame, trailing bytes untouched. distinct = (type sequence, frame kinds, reader kind, trailer kind); non-trivial = at least two frames or a trailer"
 }
 func (c06) Assumptions() []string {
 	return []string{"readers obey the io.Reader contract", "a call whose fixed header is itself invalid (remaining length longer than four bytes) is outside the statement and ends the stream"}
@@ -40,7 +41,7 @@ func (c06) Phases(env run.Env) []run.Phase {
 	return []run.Phase{{Name: "adjacency", N: 256}, {Name: "streams", N: 3000}, {Name: "soak", N: 96}}
 }
 
-var readerKinds = []string{"full", "bufio16", "bufio4096", "one-byte", "random", "random-zeros", "iotest-half", "bufio-direct16", "bufio-direct4096", "bytes.Buffer-direct", "bytes.Reader-direct", "strings.Reader-direct"}
+var readerKinds = []string{"full", "bufio16", "bufio4096", "one-byte", "random", "random-zeros", "iotest-half", "bufio-direct16", "bufio-direct4096", "bytes.Buffer-direct", "bytes.Reader-direct", "strings.Reader-direct", "staged-buffer"}
 
 type halfReader struct{ r io.Reader }
 
@@ -144,7 +145,13 @@ func (c06) Run(c *run.Ctx, phase, idx int) {
 		}
 	case 2:
 		s := genStream(r, 2+r.Intn(24))
-		c06Soak(c, r, s, []string{"net.Pipe", "os.Pipe", "tcp"}[idx%3])
+		if idx%2 == 1 {
+			// request/response style: the peer sends one frame and keeps
+			// quiet until it has been read
+			c06LockStep(c, r, genStream(r, 2+r.Intn(6)), []string{"net.Pipe", "os.Pipe", "net.Pipe+bufio", "os.Pipe+bufio"}[(idx/2)%4])
+			return
+		}
+		c06Soak(c, r, s, []string{"net.Pipe", "os.Pipe", "tcp"}[(idx/2)%3])
 	}
 }
 
@@ -175,6 +182,10 @@ func c06Judge(c *run.Ctx, s streamCase, rkind string, rd io.Reader) {
 		br := bytes.NewReader(stream)
 		src = br
 		pos = func() int64 { return int64(len(stream) - br.Len()) }
+	case "staged-buffer":
+		st := mon.NewStagedReader(stream, 7)
+		src = st
+		pos = func() int64 { return int64(st.Consumed()) }
 	case "strings.Reader-direct":
 		sr := strings.NewReader(string(stream))
 		src = sr
@@ -415,3 +426,86 @@ func c06Soak(c *run.Ctx, r *gen.RNG, s streamCase, transport string) {
 }
 
 var _ = strings.Join
+
+// c06LockStep plays a peer that sends one frame and then waits until that
+// packet has been returned before it sends the next one: ReadPacket must not
+// need bytes beyond the frame to return it. The wait has a timeout only so
+// that the run can go on; a missed acknowledgement is re-tried with a long
+// timeout before it counts.
+func c06LockStep(c *run.Ctx, r *gen.RNG, s streamCase, transport string) {
+	var frames [][]byte
+	for _, f := range s.frames {
+		if _, err := ref.ParseHeader(f.Bytes); err == nil {
+			frames = append(frames, f.Bytes)
+		}
+	}
+	if len(frames) == 0 {
+		return
+	}
+	attempt := func(timeout time.Duration) (missed int, done int) {
+		var rd io.ReadCloser
+		var wr io.WriteCloser
+		if strings.HasPrefix(transport, "net.Pipe") {
+			a, b := net.Pipe()
+			rd, wr = a, b
+		} else {
+			pr, pw, err := os.Pipe()
+			if err != nil {
+				return 0, -1
+			}
+			rd, wr = pr, pw
+		}
+		var src io.Reader = rd
+		if strings.HasSuffix(transport, "+bufio") {
+			src = bufio.NewReaderSize(rd, 4096) // the caller's own bufio.Reader
+		}
+		acks := make(chan int, len(frames)+1)
+		missedAt := -1
+		fin := make(chan struct{})
+		go func() {
+			defer close(fin)
+			defer wr.Close()
+			for k, f := range frames {
+				if _, err := wr.Write(f); err != nil {
+					return
+				}
+				select {
+				case <-acks:
+				case <-time.After(timeout):
+					if missedAt < 0 {
+						missedAt = k
+					}
+				}
+			}
+		}()
+		for k := range frames {
+			c.Current(func() string { return fmt.Sprintf("ReadPacket lock-step frame %d over %s", k, transport) })
+			res := mon.Read(src)
+			c.Eval(1)
+			if res.Panic != nil {
+				break
+			}
+			done++
+			acks <- k
+		}
+		rd.Close()
+		<-fin
+		c.Tick()
+		return missedAt + 1, done
+	}
+	m, done := attempt(3 * time.Second)
+	if done < 0 {
+		return
+	}
+	c.Count("soak", "lock-step/"+transport, 1)
+	c.Distinct(run.Hash64("lockstep", transport, itoa(len(frames)), string(frames[0])), true)
+	if m > 0 {
+		m2, _ := attempt(15 * time.Second)
+		if m2 > 0 {
+			c.Violation("C06/needs-bytes-beyond-the-frame/"+transport, fmt.Sprintf("over %s a peer sent frame %d (%d bytes) and then kept quiet: ReadPacket did not return it until later bytes were sent (twice, waiting 3 s and 15 s)", transport, m2-1, len(frames[m2-1])),
+				map[string]interface{}{"frame": hexClip(frames[m2-1], 256), "transport": transport})
+		} else {
+			c.Note("a lock-step acknowledgement was missed once within 3 s but not within 15 s (loaded machine)")
+		}
+	}
+}
